@@ -44,6 +44,12 @@ try:
                     got = c.decode_message_data(data)
                     if got != m:
                         out(True, f'{type(m).__qualname__} with {n} files over a {"obfuscated" if obf else "plain"} connection does not decode to itself', {'files': n})
+    # strings come back exactly as sent: no normalisation (decomposed accents, Hangul jamo, compatibility characters, U+212B)
+    for text in ('cafe\u0301', '\u1112\u1161\u11ab', '\u212b', '\ufb01n', 'e\u0301\u0300', 'caf\u00e9'):
+        for m in (M.FileSearch.Request(1, text), M.GetUserStatus.Request(text), M.PeerPlaceInQueueRequest.Request(text)):
+            back = type(m).deserialize(0, m.serialize())
+            if back != m:
+                out(True, f'{type(m).__qualname__} with the string {text!r} ({[hex(ord(ch)) for ch in text]}) decodes to {back!r}', {'text': text})
     # appending frames to a buffer that already holds data (the public serialize_into): the bytes before stay, the frame appended is the
     # frame serialize() produces
     for m in (M.Ping.Request(), M.GetUserStatus.Request('bob'), M.FileSearch.Request(1, 'query'),
